@@ -11,7 +11,11 @@ use crate::rng::TestRng;
 use crate::{scn, Scenario};
 
 pub fn scenarios() -> Vec<Scenario> {
-    vec![scn!(scenario_sign_aggregate_verify)]
+    vec![
+        scn!(scenario_sign_aggregate_verify, 3),
+        crate::wrap::scn_dealer(1),
+        crate::wrap::scn_sign_aggregate(1),
+    ]
 }
 
 /// Everything in the honest flow must succeed; key generation included (the property quantifies
